@@ -76,6 +76,12 @@ type segState struct {
 	holding     int             // mutexes acquired in the current segment and not yet released
 }
 
+// hostThread is a goroutine captured during scenario setup (function + arguments).
+type hostThread struct {
+	fn   value
+	args []value
+}
+
 type tsThreadDecl struct {
 	name string
 	fn   value
@@ -125,11 +131,17 @@ func (s *segState) isVisibleCallee(m *Machine, fn value) bool {
 // visiblePoint is called immediately before a visible operation executes.
 func (m *Machine) visiblePoint(fr *frame, label string) {
 	s := m.seg
-	if s.holding > 0 {
+	if s.holding > 0 && !strings.Contains(label, ").Lock") && !strings.Contains(label, ").RLock") && !strings.Contains(label, "chan recv") && !strings.Contains(label, "select") {
 		// inside a lock region: the region up to the matching Unlock is one
 		// atomic step (assumption: the protected data is only touched under
-		// the same lock, or read atomically on the way to taking it)
+		// the same lock, or read atomically on the way to taking it).
+		// Potentially blocking operations (a nested Lock, a receive) still cut:
+		// the thread may then be suspended while holding the lock.
 		return
+	}
+	if s.holding > 0 {
+		s.holding = 0
+		panic(cutSignal{frames: captureFrames(fr), label: label})
 	}
 	if s.visibleSeen >= 1 {
 		panic(cutSignal{frames: captureFrames(fr), label: label})
@@ -338,6 +350,15 @@ func (s *segState) toToken(m *Machine, v value) value {
 	panic(unsupported{"value stored into a token cell is not in the token table: " + toString(v)})
 }
 
+func (s *segState) tokenIndex(v value) (int, bool) {
+	for i, tv := range s.tokens {
+		if eq, ok := plainEqualDeep(tv, v); ok && eq {
+			return i, true
+		}
+	}
+	return 0, false
+}
+
 func plainEqualDeep(a, b value) (bool, bool) {
 	if as, ok := a.([]value); ok {
 		bs, ok2 := b.([]value)
@@ -355,6 +376,18 @@ func plainEqualDeep(a, b value) (bool, bool) {
 		return true, true
 	}
 	return plainEqual(a, b)
+}
+
+// resolveIface resolves a token where an interface value is required; table
+// entries of another shape make the path infeasible (the token variable is
+// typed by its use).
+func (m *Machine) resolveIface(v value) iface {
+	r := m.resolveTok(v)
+	it, ok := r.(iface)
+	if !ok {
+		panic(pathEnd{"infeasible", "token of the wrong shape for an interface"})
+	}
+	return it
 }
 
 func (m *Machine) tokTable() []value {
@@ -615,7 +648,12 @@ func (p *Program) BuildTS(scenario *ssa.Function, cfg Config, solverName string,
 
 	// 2. discover pcs per thread type
 	for _, td := range seg.threads {
-		tt := ts.typeFor(td.fn, nil, td.name)
+		var tt *TSThreadType
+		if ht, ok := td.fn.(*hostThread); ok {
+			tt = ts.typeFor(ht.fn, ht.args, td.name)
+		} else {
+			tt = ts.typeFor(td.fn, nil, td.name)
+		}
 		ts.Initial = append(ts.Initial, indexOfType(ts, tt))
 		ts.Names = append(ts.Names, td.name)
 	}
@@ -798,8 +836,12 @@ func (ts *TSModel) runSegment(m *Machine, tt *TSThreadType, pc *TSPC, trail []De
 			name := regName(d, fr.fn, k)
 			if x, ok := v.(symtok); ok || isIfaceTyped(k) {
 				_ = x
-				if _, isIface := v.(iface); !ok && !isIface {
+				if iv, isIface := v.(iface); !ok && !isIface {
 					continue
+				} else if isIface {
+					if _, inTable := seg.tokenIndex(iv); !inTable {
+						continue // a constant of this cut point (e.g. a freshly built message)
+					}
 				}
 				tt.Regs[name] = tokW
 				tt.regTok[name] = true
@@ -866,9 +908,11 @@ func (ts *TSModel) runSegment(m *Machine, tt *TSThreadType, pc *TSPC, trail []De
 					oc.RegUpd[name] = x.idx
 				case iface:
 					if isIfaceTyped(k) {
-						tt.Regs[name] = tokW
-						tt.regTok[name] = true
-						oc.RegUpd[name] = seg.toToken(m, x).(symtok).idx
+						if idx, ok := seg.tokenIndex(x); ok {
+							tt.Regs[name] = tokW
+							tt.regTok[name] = true
+							oc.RegUpd[name] = m.ctx.BV(uint64(idx), tokW)
+						}
 					}
 				default:
 					// a scalar that happens to be concrete on this path but is a
@@ -946,14 +990,14 @@ func sameConstEnv(a, b []*frame) error {
 			if !ok {
 				continue
 			}
-			if isStateValue(va) || isStateValue(vb) {
+			if isStateValue(va) || isStateValue(vb) || isIfaceTyped(k) {
 				continue
 			}
 			if _, isScalar := kindOf(va); isScalar {
 				continue
 			}
 			if eq, ok := plainEqualDeep(va, vb); ok && !eq {
-				return fmt.Errorf("%s in %s", k.Name(), a[i].fn.Name())
+				return fmt.Errorf("%s in %s (%s vs %s)", k.Name(), a[i].fn.Name(), toString(va), toString(vb))
 			}
 		}
 	}
@@ -1730,7 +1774,11 @@ func (p *Program) ReplayTS(scenario *ssa.Function, cfg Config, pool int, schedul
 	}
 	var insts []*inst
 	for _, td := range seg.threads {
-		insts = append(insts, &inst{fn: td.fn, state: 1})
+		if ht, ok := td.fn.(*hostThread); ok {
+			insts = append(insts, &inst{fn: ht.fn, args: ht.args, state: 1})
+		} else {
+			insts = append(insts, &inst{fn: td.fn, state: 1})
+		}
 	}
 	// pool slots are created lazily per spawned type, in order of first spawn,
 	// mirroring TSModel.instances (types are discovered in the same order
